@@ -531,7 +531,8 @@ pub enum OpOut {
 fn run_driver(bin: &Path, task: &Path, n_ops: usize, unit_ends: &[usize]) -> (Vec<OpOut>, usize) {
     run_driver_with(n_ops, GETTER_DEATHS, &bin.with_extension("out"), unit_ends, &|start, quiet_until| {
         let mut c = Command::new("timeout");
-        c.args(["-s", "KILL", "120"])
+        // whole-task wall limit: generous, a verdict must not depend on the load of the machine
+        c.args(["-s", "KILL", "3600"])
             .arg(bin)
             .arg(task)
             .arg(start.to_string())
@@ -1268,7 +1269,7 @@ pub fn check_on(tier: Tier, only: Option<Vec<Selected>>) -> i32 {
     std::fs::create_dir_all(&hdr).expect("mkdir");
     let thorough = tier == Tier::Thorough;
     let limit: usize = std::env::var("PDLMC_LIMIT").ok().and_then(|s| s.parse().ok()).unwrap_or(usize::MAX);
-    let stride: usize = std::env::var("PDLMC_CXX_STRIDE").ok().and_then(|s| s.parse().ok()).unwrap_or(if thorough { 8 } else { 4 });
+    let stride: usize = std::env::var("PDLMC_CXX_STRIDE").ok().and_then(|s| s.parse().ok()).unwrap_or(if thorough { 32 } else { 4 });
     let group: usize = std::env::var("PDLMC_CXX_GROUP").ok().and_then(|s| s.parse().ok()).unwrap_or(12);
     // the C++ tier is the most expensive per state (two sanitizer builds): quick compiles every
     // `stride`-th selected state (fixed stride through the BFS order, reported)
